@@ -1,6 +1,6 @@
-(* GENERATED on every run by tools/rs2v_glue.py from /repo/src (the one-line projection functions of
-   buint/ bint/ int/ : checked, wrapping, saturating, strict, overflowing (non-loop forms), cmp, ops,
-   bigint_helpers).  Do not edit.  Proofs/GlueTie.v proves each definition equal to the hand-written model. *)
+(* GENERATED on every run by tools/rs2v_glue.py from /repo/src (the non-loop functions of buint/ bint/ int/ :
+   checked, wrapping, saturating, strict, overflowing, cmp, ops, bigint_helpers, mod, const_trait_fillers, unchecked,
+   numtraits).  Do not edit.  Proofs/GlueTieC*.v prove each definition equal to the hand-written model. *)
 From Bnum Require Import Base Prim.
 From Bnum.Model Require Import Digit Core Shift AddSub Mul Div Bits Pow.
 
@@ -42,6 +42,15 @@ Definition U_checked_shl (w : Z) (self : list Z) (rhs : Z) : option (list Z) :=
 
 Definition U_checked_shr (w : Z) (self : list Z) (rhs : Z) : option (list Z) :=
   if (Z.leb (bits w (length self)) rhs) then None else (Some (Shift.shr_pad_internal w false self rhs)).
+
+Definition U_checked_next_multiple_of (dbg : bool) (w : Z) (self : list Z) (rhs : list Z) : outcome (option (list Z)) :=
+  match (Div.U_checked_rem w self rhs) with Some rem => (if (Core.is_zero rem) then (Ret (Some self)) else (omap (fun (r1 : list Z) => (AddSub.U_checked_add w self r1)) (AddSub.U_sub dbg w rhs rem))) | None => (Ret None) end.
+
+Definition U_checked_ilog2 (w : Z) (self : list Z) : option (Z) :=
+  if Z.ltb (Bits.bits_of w self) 1 then None else Some (Z.sub (Bits.bits_of w self) 1).
+
+Definition U_checked_next_power_of_two (w : Z) (self : list Z) : outcome (option (list Z)) :=
+  if (Bits.U_is_power_of_two self) then (Ret (Some self)) else (let bits_ := (Bits.bits_of w self) in (if (Z.eqb bits_ (bits w (length self))) then (Ret None) else (omap (fun (r1 : list Z) => (Some r1)) (Bits.power_of_two w (length self) bits_)))).
 
 (* ---- src/buint/wrapping.rs (macro wrapping) ---- *)
 Definition U_wrapping_add (w : Z) (self : list Z) (rhs : list Z) : list Z :=
@@ -313,6 +322,12 @@ Definition I_checked_shr (w : Z) (self : list Z) (rhs : Z) : option (list Z) :=
 Definition I_checked_abs (w : Z) (self : list Z) : option (list Z) :=
   Core.tuple_to_option (AddSub.I_overflowing_abs w self).
 
+Definition I_checked_pow (w : Z) (self : list Z) (pow : Z) : option (list Z) :=
+  match (Pow.U_checked_pow w (AddSub.I_unsigned_abs w self) pow) with Some u => (let out := u in (let neg := (Core.is_negative w self) in (if (orb (negb neg) (Z.eqb (Z.land pow 1) 0)) then (if (Core.is_negative w out) then None else (Some out)) else (let out := (AddSub.I_wrapping_neg w out) in (if (negb (Core.is_negative w out)) then None else (Some out)))))) | None => None end.
+
+Definition I_checked_next_multiple_of (dbg : bool) (w : Z) (self : list Z) (rhs : list Z) : outcome (option (list Z)) :=
+  if (Core.is_zero rhs) then (Ret None) else (omap (fun (rem : list Z) => (if (Core.is_zero rem) then (Some self) else (if (Bool.eqb (Core.is_negative w rem) (Core.is_negative w rhs)) then (AddSub.I_checked_add w self (AddSub.I_wrapping_sub w rhs rem)) else (AddSub.I_checked_sub w self rem)))) (Div.I_wrapping_rem_euclid dbg w self rhs)).
+
 (* ---- src/bint/wrapping.rs (macro wrapping) ---- *)
 Definition I_wrapping_add (w : Z) (self : list Z) (rhs : list Z) : list Z :=
   AddSub.U_wrapping_add w self rhs.
@@ -422,8 +437,20 @@ Definition I_overflowing_sub_unsigned (w : Z) (self : list Z) (rhs : list Z) : (
 Definition I_overflowing_mul (w : Z) (self : list Z) (rhs : list Z) : (list Z * bool) :=
   let '(uint, overflow) := (Mul.U_overflowing_mul w (AddSub.I_unsigned_abs w self) (AddSub.I_unsigned_abs w rhs)) in (let out := uint in (if (Bool.eqb (Core.is_negative w self) (Core.is_negative w rhs)) then (out, (orb overflow (Core.is_negative w out))) else (match (AddSub.I_checked_neg w out) with Some n => (n, (orb overflow (Core.is_negative w out))) | None => (out, overflow) end))).
 
+Definition I_div_rem_unchecked (dbg : bool) (w : Z) (self : list Z) (rhs : list Z) : outcome ((list Z * list Z)) :=
+  if (andb (Core.eq_digits self (Core.IMIN w (length self))) (Core.is_one rhs)) then (Ret (self, (Core.ZERO (length self)))) else (let '(div, rem) := (Div.U_div_rem_unchecked w (AddSub.I_unsigned_abs w self) (AddSub.I_unsigned_abs w rhs)) in (let '(div, rem) := (div, rem) in (match ((Core.is_negative w self), (Core.is_negative w rhs)) with (false, false) => (Ret (div, rem)) | (false, true) => (omap (fun (r1 : list Z) => (r1, rem)) (AddSub.I_neg dbg w div)) | (true, false) => (obind (AddSub.I_neg dbg w div) (fun (r2 : list Z) => (omap (fun (r3 : list Z) => (r2, r3)) (AddSub.I_neg dbg w rem)))) | (true, true) => (omap (fun (r4 : list Z) => (div, r4)) (AddSub.I_neg dbg w rem)) end))).
+
+Definition I_overflowing_div (dbg : bool) (w : Z) (self : list Z) (rhs : list Z) : outcome ((list Z * bool)) :=
+  if (Core.is_zero rhs) then Panic else (if (Core.eq_digits self (Core.IMIN w (length self))) then (if (Core.eq_digits rhs (Core.NEG_ONE w (length self))) then (Ret (self, true)) else (if (Core.is_one rhs) then (Ret (self, false)) else (omap (fun (r1 : (list Z * list Z)) => ((fst r1), false)) (Div.I_div_rem_unchecked dbg w self rhs)))) else (omap (fun (r2 : (list Z * list Z)) => ((fst r2), false)) (Div.I_div_rem_unchecked dbg w self rhs))).
+
+Definition I_overflowing_div_euclid (dbg : bool) (w : Z) (self : list Z) (rhs : list Z) : outcome ((list Z * bool)) :=
+  if (Core.is_zero rhs) then Panic else (if (Core.eq_digits self (Core.IMIN w (length self))) then (if (Core.eq_digits rhs (Core.NEG_ONE w (length self))) then (Ret (self, true)) else (if (Core.is_one rhs) then (Ret (self, false)) else (obind (Div.I_div_rem_unchecked dbg w self rhs) (fun '((div, rem) : (list Z * list Z)) => (if (Core.is_negative w self) then (let r_neg := (Core.is_negative w rhs) in (if (negb (Core.is_zero rem)) then (if r_neg then (omap (fun (r1 : list Z) => (r1, false)) (AddSub.I_add dbg w div (Core.ONE (length self)))) else (omap (fun (r2 : list Z) => (r2, false)) (AddSub.I_sub dbg w div (Core.ONE (length self))))) else (Ret (div, false)))) else (Ret (div, false))))))) else (obind (Div.I_div_rem_unchecked dbg w self rhs) (fun '((div, rem) : (list Z * list Z)) => (if (Core.is_negative w self) then (let r_neg := (Core.is_negative w rhs) in (if (negb (Core.is_zero rem)) then (if r_neg then (omap (fun (r3 : list Z) => (r3, false)) (AddSub.I_add dbg w div (Core.ONE (length self)))) else (omap (fun (r4 : list Z) => (r4, false)) (AddSub.I_sub dbg w div (Core.ONE (length self))))) else (Ret (div, false)))) else (Ret (div, false)))))).
+
 Definition I_overflowing_rem (dbg : bool) (w : Z) (self : list Z) (rhs : list Z) : outcome ((list Z * bool)) :=
   if (Core.is_zero rhs) then Panic else (if (andb (Core.eq_digits self (Core.IMIN w (length self))) (Core.eq_digits rhs (Core.NEG_ONE w (length self)))) then (Ret ((Core.ZERO (length self)), true)) else (omap (fun (r1 : (list Z * list Z)) => ((snd r1), false)) (Div.I_div_rem_unchecked dbg w self rhs))).
+
+Definition I_overflowing_rem_euclid (dbg : bool) (w : Z) (self : list Z) (rhs : list Z) : outcome ((list Z * bool)) :=
+  if (Core.is_zero rhs) then Panic else (if (andb (Core.eq_digits self (Core.IMIN w (length self))) (Core.eq_digits rhs (Core.NEG_ONE w (length self)))) then (Ret ((Core.ZERO (length self)), true)) else (omap (fun (r1 : (list Z * list Z)) => (let rem := (snd r1) in (let rem := (if (Core.is_negative w rem) then (let rem := (if (Core.is_negative w rhs) then (let rem := (AddSub.I_wrapping_sub w rem rhs) in rem) else (let rem := (AddSub.I_wrapping_add w rem rhs) in rem)) in rem) else rem) in (rem, false)))) (Div.I_div_rem_unchecked dbg w self rhs))).
 
 Definition I_overflowing_shl (w : Z) (self : list Z) (rhs : Z) : (list Z * bool) :=
   let '(uint, overflow) := (Shift.U_overflowing_shl w self rhs) in (uint, overflow).
@@ -434,8 +461,654 @@ Definition I_overflowing_shr (w : Z) (self : list Z) (rhs : Z) : (list Z * bool)
 Definition I_overflowing_abs (w : Z) (self : list Z) : (list Z * bool) :=
   if (Core.is_negative w self) then (AddSub.I_overflowing_neg w self) else (self, false).
 
-(* ---- src/buint/mod.rs ---- *)
+Definition I_overflowing_pow (w : Z) (self : list Z) (pow : Z) : (list Z * bool) :=
+  let '(u, overflow) := (Pow.U_overflowing_pow w (AddSub.I_unsigned_abs w self) pow) in (let out_neg := (andb (Core.is_negative w self) (Z.eqb (Z.land pow 1) 1)) in (let out := u in (let '(out, overflow) := (if out_neg then (let out := (AddSub.I_wrapping_neg w out) in (let overflow := (orb overflow (negb (Core.is_negative w out))) in (out, overflow))) else (let overflow := (orb overflow (Core.is_negative w out)) in (out, overflow))) in (out, overflow)))).
+
+(* ---- src/buint/const_trait_fillers.rs (macro const_trait_fillers) ---- *)
+Definition U_ne (w : Z) (self : list Z) (other : list Z) : bool :=
+  negb (Core.eq_digits self other).
+
+Definition U_div (w : Z) (self : list Z) (rhs : list Z) : outcome (list Z) :=
+  Div.U_wrapping_div w self rhs.
+
+Definition U_rem (w : Z) (self : list Z) (rhs : list Z) : outcome (list Z) :=
+  Div.U_wrapping_rem w self rhs.
+
+(* ---- src/bint/const_trait_fillers.rs (macro const_trait_fillers) ---- *)
+Definition I_bitand (w : Z) (self : list Z) (rhs : list Z) : list Z :=
+  Core.bitand self rhs.
+
+Definition I_bitor (w : Z) (self : list Z) (rhs : list Z) : list Z :=
+  Core.bitor self rhs.
+
+Definition I_bitxor (w : Z) (self : list Z) (rhs : list Z) : list Z :=
+  Core.bitxor self rhs.
+
+Definition I_not (w : Z) (self : list Z) : list Z :=
+  Core.bitnot w self.
+
+Definition I_eq (w : Z) (self : list Z) (other : list Z) : bool :=
+  Core.eq_digits self other.
+
+Definition I_ne (w : Z) (self : list Z) (other : list Z) : bool :=
+  negb (Core.eq_digits self other).
+
+Definition I_cmp (w : Z) (self : list Z) (other : list Z) : comparison :=
+  let s1 := (Core.signed_digit w self) in (let s2 := (Core.signed_digit w other) in (if (Z.eqb s1 s2) then (Core.ucmp self other) else (if (Z.ltb s2 s1) then Gt else Lt))).
+
+Definition I_neg (dbg : bool) (w : Z) (self : list Z) : outcome (list Z) :=
+  if dbg then (AddSub.I_strict_neg w self) else (Ret (AddSub.I_wrapping_neg w self)).
+
+Definition I_div (dbg : bool) (w : Z) (self : list Z) (rhs : list Z) : outcome (list Z) :=
+  if (andb (Core.eq_digits self (Core.IMIN w (length self))) (Core.eq_digits rhs (Core.NEG_ONE w (length self)))) then Panic else (if (Core.is_zero rhs) then Panic else (omap (fun (r1 : (list Z * list Z)) => (fst r1)) (Div.I_div_rem_unchecked dbg w self rhs))).
+
+Definition I_rem (dbg : bool) (w : Z) (self : list Z) (rhs : list Z) : outcome (list Z) :=
+  if (andb (Core.eq_digits self (Core.IMIN w (length self))) (Core.eq_digits rhs (Core.NEG_ONE w (length self)))) then Panic else (if (Core.is_zero rhs) then Panic else (omap (fun (r1 : (list Z * list Z)) => (snd r1)) (Div.I_div_rem_unchecked dbg w self rhs))).
+
+(* ---- src/int/ops.rs (macro impls) ---- *)
+Definition U_Add_add (dbg : bool) (w : Z) (self : list Z) (rhs : list Z) : outcome (list Z) :=
+  AddSub.U_add dbg w self rhs.
+
+Definition U_Mul_mul (dbg : bool) (w : Z) (self : list Z) (rhs : list Z) : outcome (list Z) :=
+  Mul.U_mul dbg w self rhs.
+
+Definition U_Not_ref_not (w : Z) (self : list Z) : list Z :=
+  Core.bitnot w self.
+
+Definition U_Shl_ExpType_shl (dbg : bool) (w : Z) (self : list Z) (rhs : Z) : outcome (list Z) :=
+  Shift.U_shl dbg w self rhs.
+
+Definition U_Shr_ExpType_shr (dbg : bool) (w : Z) (self : list Z) (rhs : Z) : outcome (list Z) :=
+  Shift.U_shr dbg w self rhs.
+
+Definition U_Sub_sub (dbg : bool) (w : Z) (self : list Z) (rhs : list Z) : outcome (list Z) :=
+  AddSub.U_sub dbg w self rhs.
+
+Definition I_Add_add (dbg : bool) (w : Z) (self : list Z) (rhs : list Z) : outcome (list Z) :=
+  AddSub.I_add dbg w self rhs.
+
+Definition I_Mul_mul (dbg : bool) (w : Z) (self : list Z) (rhs : list Z) : outcome (list Z) :=
+  Mul.I_mul dbg w self rhs.
+
+Definition I_Not_ref_not (w : Z) (self : list Z) : list Z :=
+  Core.bitnot w self.
+
+Definition I_Shl_ExpType_shl (dbg : bool) (w : Z) (self : list Z) (rhs : Z) : outcome (list Z) :=
+  Shift.I_shl dbg w self rhs.
+
+Definition I_Shr_ExpType_shr (dbg : bool) (w : Z) (self : list Z) (rhs : Z) : outcome (list Z) :=
+  Shift.I_shr dbg w self rhs.
+
+Definition I_Sub_sub (dbg : bool) (w : Z) (self : list Z) (rhs : list Z) : outcome (list Z) :=
+  AddSub.I_sub dbg w self rhs.
+
+(* ---- src/buint/ops.rs (macro ops) ---- *)
+Definition U_BitAnd_bitand (w : Z) (self : list Z) (rhs : list Z) : list Z :=
+  Core.bitand self rhs.
+
+Definition U_BitOr_bitor (w : Z) (self : list Z) (rhs : list Z) : list Z :=
+  Core.bitor self rhs.
+
+Definition U_BitXor_bitxor (w : Z) (self : list Z) (rhs : list Z) : list Z :=
+  Core.bitxor self rhs.
+
+Definition U_Div_div (w : Z) (self : list Z) (rhs : list Z) : outcome (list Z) :=
+  Div.U_div w self rhs.
+
+Definition U_Div_digit_div (w : Z) (self : list Z) (rhs : Z) : outcome (list Z) :=
+  omap (fun (r1 : (list Z * Z)) => (fst r1)) (if Z.eqb rhs 0 then Panic else Ret (Div.div_rem_digit w self rhs)).
+
+Definition U_Not_not (w : Z) (self : list Z) : list Z :=
+  Core.bitnot w self.
+
+Definition U_Rem_rem (w : Z) (self : list Z) (rhs : list Z) : outcome (list Z) :=
+  Div.U_rem w self rhs.
+
+Definition U_Rem_digit_rem (w : Z) (self : list Z) (rhs : Z) : outcome (Z) :=
+  omap (fun (r1 : (list Z * Z)) => (snd r1)) (if Z.eqb rhs 0 then Panic else Ret (Div.div_rem_digit w self rhs)).
+
+(* ---- src/bint/ops.rs (macro ops) ---- *)
+Definition I_Neg_neg (dbg : bool) (w : Z) (self : list Z) : outcome (list Z) :=
+  AddSub.I_neg dbg w self.
+
+Definition I_Neg_ref_neg (dbg : bool) (w : Z) (self : list Z) : outcome (list Z) :=
+  AddSub.I_neg dbg w self.
+
+Definition I_BitAnd_bitand (w : Z) (self : list Z) (rhs : list Z) : list Z :=
+  Core.bitand self rhs.
+
+Definition I_BitOr_bitor (w : Z) (self : list Z) (rhs : list Z) : list Z :=
+  Core.bitor self rhs.
+
+Definition I_BitXor_bitxor (w : Z) (self : list Z) (rhs : list Z) : list Z :=
+  Core.bitxor self rhs.
+
+Definition I_Div_div (dbg : bool) (w : Z) (self : list Z) (rhs : list Z) : outcome (list Z) :=
+  Div.I_div dbg w self rhs.
+
+Definition I_Not_not (w : Z) (self : list Z) : list Z :=
+  Core.bitnot w self.
+
+Definition I_Rem_rem (dbg : bool) (w : Z) (self : list Z) (rhs : list Z) : outcome (list Z) :=
+  Div.I_rem dbg w self rhs.
+
+(* ---- src/int/numtraits.rs (macro impls) ---- *)
+Definition U_Bounded_min_value (w : Z) (n : nat) : list Z :=
+  Core.ZERO n.
+
+Definition U_Bounded_max_value (w : Z) (n : nat) : list Z :=
+  Core.UMAX w n.
+
+Definition U_CheckedNeg_checked_neg (w : Z) (self : list Z) : option (list Z) :=
+  AddSub.U_checked_neg self.
+
+Definition U_CheckedShl_checked_shl (w : Z) (self : list Z) (rhs : Z) : option (list Z) :=
+  Shift.U_checked_shl w self rhs.
+
+Definition U_CheckedShr_checked_shr (w : Z) (self : list Z) (rhs : Z) : option (list Z) :=
+  Shift.U_checked_shr w self rhs.
+
+Definition U_CheckedEuclid_checked_div_euclid (w : Z) (self : list Z) (rhs : list Z) : option (list Z) :=
+  Div.U_checked_div_euclid w self rhs.
+
+Definition U_CheckedEuclid_checked_rem_euclid (w : Z) (self : list Z) (rhs : list Z) : option (list Z) :=
+  Div.U_checked_rem_euclid w self rhs.
+
+Definition U_Euclid_div_euclid (w : Z) (self : list Z) (rhs : list Z) : outcome (list Z) :=
+  Div.U_div_euclid w self rhs.
+
+Definition U_Euclid_rem_euclid (w : Z) (self : list Z) (rhs : list Z) : outcome (list Z) :=
+  Div.U_rem_euclid w self rhs.
+
+Definition U_WrappingNeg_wrapping_neg (w : Z) (self : list Z) : list Z :=
+  AddSub.U_wrapping_neg w self.
+
+Definition U_WrappingShl_wrapping_shl (w : Z) (self : list Z) (rhs : Z) : list Z :=
+  Shift.U_wrapping_shl w self rhs.
+
+Definition U_WrappingShr_wrapping_shr (w : Z) (self : list Z) (rhs : Z) : list Z :=
+  Shift.U_wrapping_shr w self rhs.
+
+Definition U_Pow_pow (dbg : bool) (w : Z) (self : list Z) (exp : Z) : outcome (list Z) :=
+  Pow.U_pow dbg w self exp.
+
+Definition U_Saturating_saturating_add (w : Z) (self : list Z) (rhs : list Z) : list Z :=
+  AddSub.U_saturating_add w self rhs.
+
+Definition U_Saturating_saturating_sub (w : Z) (self : list Z) (rhs : list Z) : list Z :=
+  AddSub.U_saturating_sub w self rhs.
+
+Definition U_MulAdd_mul_add (dbg : bool) (w : Z) (self : list Z) (a : list Z) (b : list Z) : outcome (list Z) :=
+  obind (Mul.U_mul dbg w self a) (fun (r1 : list Z) => (AddSub.U_add dbg w r1 b)).
+
+Definition U_One_one (w : Z) (n : nat) : list Z :=
+  Core.ONE n.
+
+Definition U_One_is_one (w : Z) (self : list Z) : bool :=
+  Core.is_one self.
+
+Definition U_Zero_zero (w : Z) (n : nat) : list Z :=
+  Core.ZERO n.
+
+Definition U_Zero_is_zero (w : Z) (self : list Z) : bool :=
+  Core.is_zero self.
+
+Definition I_Bounded_min_value (w : Z) (n : nat) : list Z :=
+  Core.IMIN w n.
+
+Definition I_Bounded_max_value (w : Z) (n : nat) : list Z :=
+  Core.IMAX w n.
+
+Definition I_CheckedNeg_checked_neg (w : Z) (self : list Z) : option (list Z) :=
+  AddSub.I_checked_neg w self.
+
+Definition I_CheckedShl_checked_shl (w : Z) (self : list Z) (rhs : Z) : option (list Z) :=
+  Shift.I_checked_shl w self rhs.
+
+Definition I_CheckedShr_checked_shr (w : Z) (self : list Z) (rhs : Z) : option (list Z) :=
+  Shift.I_checked_shr w self rhs.
+
+Definition I_CheckedEuclid_checked_div_euclid (dbg : bool) (w : Z) (self : list Z) (rhs : list Z) : outcome (option (list Z)) :=
+  Div.I_checked_div_euclid dbg w self rhs.
+
+Definition I_CheckedEuclid_checked_rem_euclid (dbg : bool) (w : Z) (self : list Z) (rhs : list Z) : outcome (option (list Z)) :=
+  Div.I_checked_rem_euclid dbg w self rhs.
+
+Definition I_Euclid_div_euclid (dbg : bool) (w : Z) (self : list Z) (rhs : list Z) : outcome (list Z) :=
+  Div.I_div_euclid dbg w self rhs.
+
+Definition I_Euclid_rem_euclid (dbg : bool) (w : Z) (self : list Z) (rhs : list Z) : outcome (list Z) :=
+  Div.I_rem_euclid dbg w self rhs.
+
+Definition I_WrappingNeg_wrapping_neg (w : Z) (self : list Z) : list Z :=
+  AddSub.I_wrapping_neg w self.
+
+Definition I_WrappingShl_wrapping_shl (w : Z) (self : list Z) (rhs : Z) : list Z :=
+  Shift.I_wrapping_shl w self rhs.
+
+Definition I_WrappingShr_wrapping_shr (w : Z) (self : list Z) (rhs : Z) : list Z :=
+  Shift.I_wrapping_shr w self rhs.
+
+Definition I_Pow_pow (dbg : bool) (w : Z) (self : list Z) (exp : Z) : outcome (list Z) :=
+  Pow.I_pow dbg w self exp.
+
+Definition I_Saturating_saturating_add (w : Z) (self : list Z) (rhs : list Z) : list Z :=
+  AddSub.I_saturating_add w self rhs.
+
+Definition I_Saturating_saturating_sub (w : Z) (self : list Z) (rhs : list Z) : list Z :=
+  AddSub.I_saturating_sub w self rhs.
+
+Definition I_MulAdd_mul_add (dbg : bool) (w : Z) (self : list Z) (a : list Z) (b : list Z) : outcome (list Z) :=
+  obind (Mul.I_mul dbg w self a) (fun (r1 : list Z) => (AddSub.I_add dbg w r1 b)).
+
+Definition I_One_one (w : Z) (n : nat) : list Z :=
+  Core.ONE n.
+
+Definition I_One_is_one (w : Z) (self : list Z) : bool :=
+  Core.is_one self.
+
+Definition I_Zero_zero (w : Z) (n : nat) : list Z :=
+  Core.ZERO n.
+
+Definition I_Zero_is_zero (w : Z) (self : list Z) : bool :=
+  Core.is_zero self.
+
+(* ---- src/int/unchecked.rs (macro impls) ---- *)
+Definition U_unchecked_add (w : Z) (self : list Z) (rhs : list Z) : option (list Z) :=
+  AddSub.U_checked_add w self rhs.
+
+Definition U_unchecked_sub (w : Z) (self : list Z) (rhs : list Z) : option (list Z) :=
+  AddSub.U_checked_sub w self rhs.
+
+Definition U_unchecked_mul (w : Z) (self : list Z) (rhs : list Z) : option (list Z) :=
+  Mul.U_checked_mul w self rhs.
+
+Definition U_unchecked_shl (w : Z) (self : list Z) (rhs : Z) : option (list Z) :=
+  Shift.U_checked_shl w self rhs.
+
+Definition U_unchecked_shr (w : Z) (self : list Z) (rhs : Z) : option (list Z) :=
+  Shift.U_checked_shr w self rhs.
+
+Definition I_unchecked_add (w : Z) (self : list Z) (rhs : list Z) : option (list Z) :=
+  AddSub.I_checked_add w self rhs.
+
+Definition I_unchecked_sub (w : Z) (self : list Z) (rhs : list Z) : option (list Z) :=
+  AddSub.I_checked_sub w self rhs.
+
+Definition I_unchecked_mul (w : Z) (self : list Z) (rhs : list Z) : option (list Z) :=
+  Mul.I_checked_mul w self rhs.
+
+Definition I_unchecked_shl (w : Z) (self : list Z) (rhs : Z) : option (list Z) :=
+  Shift.I_checked_shl w self rhs.
+
+Definition I_unchecked_shr (w : Z) (self : list Z) (rhs : Z) : option (list Z) :=
+  Shift.I_checked_shr w self rhs.
+
+(* ---- src/buint/mod.rs (macro mod_impl) ---- *)
+Definition U_cast_signed (w : Z) (self : list Z) : list Z :=
+  self.
+
+Definition U_rotate_left (w : Z) (self : list Z) (n : Z) : list Z :=
+  Shift.unchecked_rotate_left w self (Z.modulo n (bits w (length self))).
+
+Definition U_rotate_right (w : Z) (self : list Z) (n : Z) : list Z :=
+  let n := (Z.modulo n (bits w (length self))) in (Shift.unchecked_rotate_left w self (Z.sub (bits w (length self)) n)).
+
+Definition U_unbounded_shl (w : Z) (self : list Z) (rhs : Z) : list Z :=
+  if (Z.leb (bits w (length self)) rhs) then (Core.ZERO (length self)) else (Shift.shl_internal w self rhs).
+
+Definition U_unbounded_shr (w : Z) (self : list Z) (rhs : Z) : list Z :=
+  if (Z.leb (bits w (length self)) rhs) then (Core.ZERO (length self)) else (Shift.shr_pad_internal w false self rhs).
+
+Definition U_pow (dbg : bool) (w : Z) (self : list Z) (exp : Z) : outcome (list Z) :=
+  if dbg then (Pow.U_strict_pow w self exp) else (Ret (Pow.U_wrapping_pow w self exp)).
+
+Definition U_div_euclid (w : Z) (self : list Z) (rhs : list Z) : outcome (list Z) :=
+  Div.U_wrapping_div_euclid w self rhs.
+
+Definition U_rem_euclid (w : Z) (self : list Z) (rhs : list Z) : outcome (list Z) :=
+  Div.U_wrapping_rem_euclid w self rhs.
+
+Definition U_next_power_of_two (dbg : bool) (w : Z) (self : list Z) : outcome (list Z) :=
+  if dbg then (obind (Bits.U_checked_next_power_of_two w self) (fun (r1 : option (list Z)) => (Core.option_expect r1))) else (Bits.U_wrapping_next_power_of_two w self).
+
+Definition U_midpoint (dbg : bool) (w : Z) (self : list Z) (rhs : list Z) : outcome (list Z) :=
+  obind (Shift.U_shr dbg w (Core.bitxor self rhs) 1) (fun (r1 : list Z) => (AddSub.U_add dbg w (Core.bitand self rhs) r1)).
+
+Definition U_ilog2 (w : Z) (self : list Z) : outcome (Z) :=
+  Core.option_expect (Pow.U_checked_ilog2 w self).
+
+Definition U_abs_diff (w : Z) (self : list Z) (other : list Z) : list Z :=
+  if (Core.cmp_lt (Core.ucmp self other)) then (AddSub.U_wrapping_sub w other self) else (AddSub.U_wrapping_sub w self other).
+
+Definition U_next_multiple_of (dbg : bool) (w : Z) (self : list Z) (rhs : list Z) : outcome (list Z) :=
+  obind (Div.U_wrapping_rem w self rhs) (fun (rem : list Z) => (if (Core.is_zero rem) then (Ret self) else (obind (AddSub.U_sub dbg w rhs rem) (fun (r1 : list Z) => (AddSub.U_add dbg w self r1))))).
+
+Definition U_div_floor (w : Z) (self : list Z) (rhs : list Z) : outcome (list Z) :=
+  Div.U_wrapping_div w self rhs.
+
+Definition U_div_ceil (dbg : bool) (w : Z) (self : list Z) (rhs : list Z) : outcome (list Z) :=
+  obind (Div.U_div_rem w self rhs) (fun '((div, rem) : (list Z * list Z)) => (if (Core.is_zero rem) then (Ret div) else (AddSub.U_add dbg w div (Core.ONE (length self))))).
+
 Definition U_unchecked_shr_internal (w : Z) (u : list Z) (rhs : Z) : list Z :=
   Shift.shr_pad_internal w false u rhs.
+
+Definition U_bits (w : Z) (self : list Z) : Z :=
+  Z.sub (bits w (length self)) (Bits.leading_zeros w self).
+
+(* ---- src/bint/mod.rs (macro mod_impl) ---- *)
+Definition I_count_ones (w : Z) (self : list Z) : Z :=
+  Bits.count_ones self.
+
+Definition I_count_zeros (w : Z) (self : list Z) : Z :=
+  Bits.count_zeros w self.
+
+Definition I_leading_zeros (w : Z) (self : list Z) : Z :=
+  Bits.leading_zeros w self.
+
+Definition I_trailing_zeros (w : Z) (self : list Z) : Z :=
+  Bits.trailing_zeros w self.
+
+Definition I_leading_ones (w : Z) (self : list Z) : Z :=
+  Bits.leading_ones w self.
+
+Definition I_trailing_ones (w : Z) (self : list Z) : Z :=
+  Bits.trailing_ones w self.
+
+Definition I_cast_unsigned (w : Z) (self : list Z) : list Z :=
+  self.
+
+Definition I_rotate_left (w : Z) (self : list Z) (n : Z) : list Z :=
+  Shift.rotate_left w self n.
+
+Definition I_rotate_right (w : Z) (self : list Z) (n : Z) : list Z :=
+  Shift.rotate_right w self n.
+
+Definition I_unbounded_shl (w : Z) (self : list Z) (rhs : Z) : list Z :=
+  Shift.U_unbounded_shl w self rhs.
+
+Definition I_unbounded_shr (w : Z) (self : list Z) (rhs : Z) : list Z :=
+  if (Z.leb (bits w (length self)) rhs) then (if (Core.is_negative w self) then (Core.NEG_ONE w (length self)) else (Core.ZERO (length self))) else (let u := (if (Core.is_negative w self) then (Shift.shr_pad_internal w true self rhs) else (Shift.shr_pad_internal w false self rhs)) in u).
+
+Definition I_swap_bytes (w : Z) (self : list Z) : list Z :=
+  Bits.swap_bytes w self.
+
+Definition I_reverse_bits (w : Z) (self : list Z) : list Z :=
+  Bits.reverse_bits w self.
+
+Definition I_unsigned_abs (w : Z) (self : list Z) : list Z :=
+  if (Core.is_negative w self) then (AddSub.I_wrapping_neg w self) else self.
+
+Definition I_pow (dbg : bool) (w : Z) (self : list Z) (exp : Z) : outcome (list Z) :=
+  if dbg then (Pow.I_strict_pow w self exp) else (Ret (Pow.I_wrapping_pow w self exp)).
+
+Definition I_div_euclid (dbg : bool) (w : Z) (self : list Z) (rhs : list Z) : outcome (list Z) :=
+  if (orb (negb (Core.eq_digits self (Core.IMIN w (length self)))) (negb (Core.eq_digits rhs (Core.NEG_ONE w (length self))))) then (Div.I_wrapping_div_euclid dbg w self rhs) else Panic.
+
+Definition I_rem_euclid (dbg : bool) (w : Z) (self : list Z) (rhs : list Z) : outcome (list Z) :=
+  if (orb (negb (Core.eq_digits self (Core.IMIN w (length self)))) (negb (Core.eq_digits rhs (Core.NEG_ONE w (length self))))) then (Div.I_wrapping_rem_euclid dbg w self rhs) else Panic.
+
+Definition I_abs (dbg : bool) (w : Z) (self : list Z) : outcome (list Z) :=
+  if dbg then (AddSub.I_strict_abs w self) else (Ret (match (AddSub.I_checked_abs w self) with Some int => int | None => (Core.IMIN w (length self)) end)).
+
+Definition I_signum (w : Z) (self : list Z) : list Z :=
+  if (Core.is_negative w self) then (Core.NEG_ONE w (length self)) else (if (Core.is_zero self) then (Core.ZERO (length self)) else (Core.ONE (length self))).
+
+Definition I_is_positive (w : Z) (self : list Z) : bool :=
+  let signed_digit := (Core.signed_digit w self) in (orb (Z.ltb 0 signed_digit) (andb (Z.eqb signed_digit 0) (negb (Core.is_zero self)))).
+
+Definition I_is_negative (w : Z) (self : list Z) : bool :=
+  Z.ltb (Core.signed_digit w self) 0.
+
+Definition I_is_power_of_two (w : Z) (self : list Z) : bool :=
+  andb (negb (Core.is_negative w self)) (Bits.U_is_power_of_two self).
+
+Definition I_midpoint (dbg : bool) (w : Z) (self : list Z) (rhs : list Z) : outcome (list Z) :=
+  let x := (Core.bitxor self rhs) in (obind (Shift.I_shr dbg w x 1) (fun (r1 : list Z) => (obind (AddSub.I_add dbg w (Core.bitand self rhs) r1) (fun (t : list Z) => (if (andb (Core.is_negative w t) (Z.eqb (Z.land (hd 0 x) 1) 1)) then (AddSub.I_add dbg w t (Core.ONE (length self))) else (Ret t)))))).
+
+Definition I_abs_diff (w : Z) (self : list Z) (other : list Z) : list Z :=
+  if (Core.cmp_lt (Core.icmp w self other)) then (AddSub.I_wrapping_sub w other self) else (AddSub.I_wrapping_sub w self other).
+
+Definition I_next_multiple_of (dbg : bool) (w : Z) (self : list Z) (rhs : list Z) : outcome (list Z) :=
+  obind (Div.I_wrapping_rem_euclid dbg w self rhs) (fun (rem : list Z) => (if (Core.is_zero rem) then (Ret self) else (if (Bool.eqb (Core.is_negative w rem) (Core.is_negative w rhs)) then (obind (AddSub.I_sub dbg w rhs rem) (fun (r1 : list Z) => (AddSub.I_add dbg w self r1))) else (AddSub.I_sub dbg w self rem)))).
+
+Definition I_div_floor (dbg : bool) (w : Z) (self : list Z) (rhs : list Z) : outcome (list Z) :=
+  if (Core.is_zero rhs) then Panic else (obind (Div.I_div_rem_unchecked dbg w self rhs) (fun '((div, rem) : (list Z * list Z)) => (if (orb (Core.is_zero rem) (Bool.eqb (Core.is_negative w self) (Core.is_negative w rhs))) then (Ret div) else (AddSub.I_sub dbg w div (Core.ONE (length self)))))).
+
+Definition I_div_ceil (dbg : bool) (w : Z) (self : list Z) (rhs : list Z) : outcome (list Z) :=
+  if (Core.is_zero rhs) then Panic else (obind (Div.I_div_rem_unchecked dbg w self rhs) (fun '((div, rem) : (list Z * list Z)) => (if (orb (Core.is_zero rem) (negb (Bool.eqb (Core.is_negative w self) (Core.is_negative w rhs)))) then (Ret div) else (AddSub.I_add dbg w div (Core.ONE (length self)))))).
+
+Definition I_bits (w : Z) (self : list Z) : Z :=
+  Bits.bits_of w self.
+
+Definition I_bit (w : Z) (self : list Z) (b : Z) : outcome (bool) :=
+  Bits.bit w self b.
+
+Definition I_is_zero (w : Z) (self : list Z) : bool :=
+  Core.is_zero self.
+
+Definition I_is_one (w : Z) (self : list Z) : bool :=
+  Core.is_one self.
+
+(* ---- src/bint/mod.rs: expansions of ilog! (defined in src/bint/mod.rs) ---- *)
+Definition I_ilog2 (w : Z) (self : list Z) : outcome (Z) :=
+  if (Core.is_negative w self) then Panic else (Pow.U_ilog2 w self).
+
+(* ---- src/bint/checked.rs: expansions of checked_ilog! (defined in src/bint/checked.rs) ---- *)
+Definition I_checked_ilog2 (w : Z) (self : list Z) : option (Z) :=
+  if (Core.is_negative w self) then None else (Pow.U_checked_ilog2 w self).
+
+(* ---- src/int/numtraits.rs: expansions of num_trait_impl! (defined in src/int/numtraits.rs) ---- *)
+Definition U_CheckedAdd_checked_add (w : Z) (self : list Z) (rhs : list Z) : option (list Z) :=
+  AddSub.U_checked_add w self rhs.
+
+Definition I_CheckedAdd_checked_add (w : Z) (self : list Z) (rhs : list Z) : option (list Z) :=
+  AddSub.I_checked_add w self rhs.
+
+Definition U_CheckedDiv_checked_div (w : Z) (self : list Z) (rhs : list Z) : option (list Z) :=
+  Div.U_checked_div w self rhs.
+
+Definition I_CheckedDiv_checked_div (dbg : bool) (w : Z) (self : list Z) (rhs : list Z) : outcome (option (list Z)) :=
+  Div.I_checked_div dbg w self rhs.
+
+Definition U_CheckedMul_checked_mul (w : Z) (self : list Z) (rhs : list Z) : option (list Z) :=
+  Mul.U_checked_mul w self rhs.
+
+Definition I_CheckedMul_checked_mul (w : Z) (self : list Z) (rhs : list Z) : option (list Z) :=
+  Mul.I_checked_mul w self rhs.
+
+Definition U_CheckedRem_checked_rem (w : Z) (self : list Z) (rhs : list Z) : option (list Z) :=
+  Div.U_checked_rem w self rhs.
+
+Definition I_CheckedRem_checked_rem (dbg : bool) (w : Z) (self : list Z) (rhs : list Z) : outcome (option (list Z)) :=
+  Div.I_checked_rem dbg w self rhs.
+
+Definition U_CheckedSub_checked_sub (w : Z) (self : list Z) (rhs : list Z) : option (list Z) :=
+  AddSub.U_checked_sub w self rhs.
+
+Definition I_CheckedSub_checked_sub (w : Z) (self : list Z) (rhs : list Z) : option (list Z) :=
+  AddSub.I_checked_sub w self rhs.
+
+Definition U_SaturatingAdd_saturating_add (w : Z) (self : list Z) (rhs : list Z) : list Z :=
+  AddSub.U_saturating_add w self rhs.
+
+Definition I_SaturatingAdd_saturating_add (w : Z) (self : list Z) (rhs : list Z) : list Z :=
+  AddSub.I_saturating_add w self rhs.
+
+Definition U_SaturatingMul_saturating_mul (w : Z) (self : list Z) (rhs : list Z) : list Z :=
+  Mul.U_saturating_mul w self rhs.
+
+Definition I_SaturatingMul_saturating_mul (w : Z) (self : list Z) (rhs : list Z) : list Z :=
+  Mul.I_saturating_mul w self rhs.
+
+Definition U_SaturatingSub_saturating_sub (w : Z) (self : list Z) (rhs : list Z) : list Z :=
+  AddSub.U_saturating_sub w self rhs.
+
+Definition I_SaturatingSub_saturating_sub (w : Z) (self : list Z) (rhs : list Z) : list Z :=
+  AddSub.I_saturating_sub w self rhs.
+
+Definition U_WrappingAdd_wrapping_add (w : Z) (self : list Z) (rhs : list Z) : list Z :=
+  AddSub.U_wrapping_add w self rhs.
+
+Definition I_WrappingAdd_wrapping_add (w : Z) (self : list Z) (rhs : list Z) : list Z :=
+  AddSub.I_wrapping_add w self rhs.
+
+Definition U_WrappingMul_wrapping_mul (w : Z) (self : list Z) (rhs : list Z) : list Z :=
+  Mul.U_wrapping_mul w self rhs.
+
+Definition I_WrappingMul_wrapping_mul (w : Z) (self : list Z) (rhs : list Z) : list Z :=
+  Mul.I_wrapping_mul w self rhs.
+
+Definition U_WrappingSub_wrapping_sub (w : Z) (self : list Z) (rhs : list Z) : list Z :=
+  AddSub.U_wrapping_sub w self rhs.
+
+Definition I_WrappingSub_wrapping_sub (w : Z) (self : list Z) (rhs : list Z) : list Z :=
+  AddSub.I_wrapping_sub w self rhs.
+
+Definition U_OverflowingAdd_overflowing_add (w : Z) (self : list Z) (rhs : list Z) : (list Z * bool) :=
+  AddSub.U_overflowing_add w self rhs.
+
+Definition I_OverflowingAdd_overflowing_add (w : Z) (self : list Z) (rhs : list Z) : (list Z * bool) :=
+  AddSub.I_overflowing_add w self rhs.
+
+Definition U_OverflowingSub_overflowing_sub (w : Z) (self : list Z) (rhs : list Z) : (list Z * bool) :=
+  AddSub.U_overflowing_sub w self rhs.
+
+Definition I_OverflowingSub_overflowing_sub (w : Z) (self : list Z) (rhs : list Z) : (list Z * bool) :=
+  AddSub.I_overflowing_sub w self rhs.
+
+(* ---- src/int/ops.rs: expansions of shift_impl! (defined in src/int/ops.rs) ---- *)
+Definition U_Shl_u8_shl (dbg : bool) (w : Z) (self : list Z) (rhs : Z) : outcome (list Z) :=
+  Shift.U_shl dbg w self rhs.
+
+Definition I_Shl_u8_shl (dbg : bool) (w : Z) (self : list Z) (rhs : Z) : outcome (list Z) :=
+  Shift.I_shl dbg w self rhs.
+
+Definition U_Shl_u16_shl (dbg : bool) (w : Z) (self : list Z) (rhs : Z) : outcome (list Z) :=
+  Shift.U_shl dbg w self rhs.
+
+Definition I_Shl_u16_shl (dbg : bool) (w : Z) (self : list Z) (rhs : Z) : outcome (list Z) :=
+  Shift.I_shl dbg w self rhs.
+
+Definition U_Shr_u8_shr (dbg : bool) (w : Z) (self : list Z) (rhs : Z) : outcome (list Z) :=
+  Shift.U_shr dbg w self rhs.
+
+Definition I_Shr_u8_shr (dbg : bool) (w : Z) (self : list Z) (rhs : Z) : outcome (list Z) :=
+  Shift.I_shr dbg w self rhs.
+
+Definition U_Shr_u16_shr (dbg : bool) (w : Z) (self : list Z) (rhs : Z) : outcome (list Z) :=
+  Shift.U_shr dbg w self rhs.
+
+Definition I_Shr_u16_shr (dbg : bool) (w : Z) (self : list Z) (rhs : Z) : outcome (list Z) :=
+  Shift.I_shr dbg w self rhs.
+
+(* ---- src/int/ops.rs: expansions of try_shift_impl! (defined in src/int/ops.rs) ---- *)
+Definition U_Shl_i8_shl (dbg : bool) (w : Z) (self : list Z) (rhs : Z) : outcome (list Z) :=
+  obind (if dbg then (Core.option_expect (if andb (Z.leb 0 rhs) (Z.leb rhs u32_max) then Some rhs else None)) else (Ret (Z.modulo rhs (2 ^ 32)))) (fun (rhs : Z) => (Shift.U_shl dbg w self rhs)).
+
+Definition I_Shl_i8_shl (dbg : bool) (w : Z) (self : list Z) (rhs : Z) : outcome (list Z) :=
+  obind (if dbg then (Core.option_expect (if andb (Z.leb 0 rhs) (Z.leb rhs u32_max) then Some rhs else None)) else (Ret (Z.modulo rhs (2 ^ 32)))) (fun (rhs : Z) => (Shift.I_shl dbg w self rhs)).
+
+Definition U_Shl_i16_shl (dbg : bool) (w : Z) (self : list Z) (rhs : Z) : outcome (list Z) :=
+  obind (if dbg then (Core.option_expect (if andb (Z.leb 0 rhs) (Z.leb rhs u32_max) then Some rhs else None)) else (Ret (Z.modulo rhs (2 ^ 32)))) (fun (rhs : Z) => (Shift.U_shl dbg w self rhs)).
+
+Definition I_Shl_i16_shl (dbg : bool) (w : Z) (self : list Z) (rhs : Z) : outcome (list Z) :=
+  obind (if dbg then (Core.option_expect (if andb (Z.leb 0 rhs) (Z.leb rhs u32_max) then Some rhs else None)) else (Ret (Z.modulo rhs (2 ^ 32)))) (fun (rhs : Z) => (Shift.I_shl dbg w self rhs)).
+
+Definition U_Shl_i32_shl (dbg : bool) (w : Z) (self : list Z) (rhs : Z) : outcome (list Z) :=
+  obind (if dbg then (Core.option_expect (if andb (Z.leb 0 rhs) (Z.leb rhs u32_max) then Some rhs else None)) else (Ret (Z.modulo rhs (2 ^ 32)))) (fun (rhs : Z) => (Shift.U_shl dbg w self rhs)).
+
+Definition I_Shl_i32_shl (dbg : bool) (w : Z) (self : list Z) (rhs : Z) : outcome (list Z) :=
+  obind (if dbg then (Core.option_expect (if andb (Z.leb 0 rhs) (Z.leb rhs u32_max) then Some rhs else None)) else (Ret (Z.modulo rhs (2 ^ 32)))) (fun (rhs : Z) => (Shift.I_shl dbg w self rhs)).
+
+Definition U_Shl_isize_shl (dbg : bool) (w : Z) (self : list Z) (rhs : Z) : outcome (list Z) :=
+  obind (if dbg then (Core.option_expect (if andb (Z.leb 0 rhs) (Z.leb rhs u32_max) then Some rhs else None)) else (Ret (Z.modulo rhs (2 ^ 32)))) (fun (rhs : Z) => (Shift.U_shl dbg w self rhs)).
+
+Definition I_Shl_isize_shl (dbg : bool) (w : Z) (self : list Z) (rhs : Z) : outcome (list Z) :=
+  obind (if dbg then (Core.option_expect (if andb (Z.leb 0 rhs) (Z.leb rhs u32_max) then Some rhs else None)) else (Ret (Z.modulo rhs (2 ^ 32)))) (fun (rhs : Z) => (Shift.I_shl dbg w self rhs)).
+
+Definition U_Shl_i64_shl (dbg : bool) (w : Z) (self : list Z) (rhs : Z) : outcome (list Z) :=
+  obind (if dbg then (Core.option_expect (if andb (Z.leb 0 rhs) (Z.leb rhs u32_max) then Some rhs else None)) else (Ret (Z.modulo rhs (2 ^ 32)))) (fun (rhs : Z) => (Shift.U_shl dbg w self rhs)).
+
+Definition I_Shl_i64_shl (dbg : bool) (w : Z) (self : list Z) (rhs : Z) : outcome (list Z) :=
+  obind (if dbg then (Core.option_expect (if andb (Z.leb 0 rhs) (Z.leb rhs u32_max) then Some rhs else None)) else (Ret (Z.modulo rhs (2 ^ 32)))) (fun (rhs : Z) => (Shift.I_shl dbg w self rhs)).
+
+Definition U_Shl_i128_shl (dbg : bool) (w : Z) (self : list Z) (rhs : Z) : outcome (list Z) :=
+  obind (if dbg then (Core.option_expect (if andb (Z.leb 0 rhs) (Z.leb rhs u32_max) then Some rhs else None)) else (Ret (Z.modulo rhs (2 ^ 32)))) (fun (rhs : Z) => (Shift.U_shl dbg w self rhs)).
+
+Definition I_Shl_i128_shl (dbg : bool) (w : Z) (self : list Z) (rhs : Z) : outcome (list Z) :=
+  obind (if dbg then (Core.option_expect (if andb (Z.leb 0 rhs) (Z.leb rhs u32_max) then Some rhs else None)) else (Ret (Z.modulo rhs (2 ^ 32)))) (fun (rhs : Z) => (Shift.I_shl dbg w self rhs)).
+
+Definition U_Shl_usize_shl (dbg : bool) (w : Z) (self : list Z) (rhs : Z) : outcome (list Z) :=
+  obind (if dbg then (Core.option_expect (if andb (Z.leb 0 rhs) (Z.leb rhs u32_max) then Some rhs else None)) else (Ret (Z.modulo rhs (2 ^ 32)))) (fun (rhs : Z) => (Shift.U_shl dbg w self rhs)).
+
+Definition I_Shl_usize_shl (dbg : bool) (w : Z) (self : list Z) (rhs : Z) : outcome (list Z) :=
+  obind (if dbg then (Core.option_expect (if andb (Z.leb 0 rhs) (Z.leb rhs u32_max) then Some rhs else None)) else (Ret (Z.modulo rhs (2 ^ 32)))) (fun (rhs : Z) => (Shift.I_shl dbg w self rhs)).
+
+Definition U_Shl_u64_shl (dbg : bool) (w : Z) (self : list Z) (rhs : Z) : outcome (list Z) :=
+  obind (if dbg then (Core.option_expect (if andb (Z.leb 0 rhs) (Z.leb rhs u32_max) then Some rhs else None)) else (Ret (Z.modulo rhs (2 ^ 32)))) (fun (rhs : Z) => (Shift.U_shl dbg w self rhs)).
+
+Definition I_Shl_u64_shl (dbg : bool) (w : Z) (self : list Z) (rhs : Z) : outcome (list Z) :=
+  obind (if dbg then (Core.option_expect (if andb (Z.leb 0 rhs) (Z.leb rhs u32_max) then Some rhs else None)) else (Ret (Z.modulo rhs (2 ^ 32)))) (fun (rhs : Z) => (Shift.I_shl dbg w self rhs)).
+
+Definition U_Shl_u128_shl (dbg : bool) (w : Z) (self : list Z) (rhs : Z) : outcome (list Z) :=
+  obind (if dbg then (Core.option_expect (if andb (Z.leb 0 rhs) (Z.leb rhs u32_max) then Some rhs else None)) else (Ret (Z.modulo rhs (2 ^ 32)))) (fun (rhs : Z) => (Shift.U_shl dbg w self rhs)).
+
+Definition I_Shl_u128_shl (dbg : bool) (w : Z) (self : list Z) (rhs : Z) : outcome (list Z) :=
+  obind (if dbg then (Core.option_expect (if andb (Z.leb 0 rhs) (Z.leb rhs u32_max) then Some rhs else None)) else (Ret (Z.modulo rhs (2 ^ 32)))) (fun (rhs : Z) => (Shift.I_shl dbg w self rhs)).
+
+Definition U_Shr_i8_shr (dbg : bool) (w : Z) (self : list Z) (rhs : Z) : outcome (list Z) :=
+  obind (if dbg then (Core.option_expect (if andb (Z.leb 0 rhs) (Z.leb rhs u32_max) then Some rhs else None)) else (Ret (Z.modulo rhs (2 ^ 32)))) (fun (rhs : Z) => (Shift.U_shr dbg w self rhs)).
+
+Definition I_Shr_i8_shr (dbg : bool) (w : Z) (self : list Z) (rhs : Z) : outcome (list Z) :=
+  obind (if dbg then (Core.option_expect (if andb (Z.leb 0 rhs) (Z.leb rhs u32_max) then Some rhs else None)) else (Ret (Z.modulo rhs (2 ^ 32)))) (fun (rhs : Z) => (Shift.I_shr dbg w self rhs)).
+
+Definition U_Shr_i16_shr (dbg : bool) (w : Z) (self : list Z) (rhs : Z) : outcome (list Z) :=
+  obind (if dbg then (Core.option_expect (if andb (Z.leb 0 rhs) (Z.leb rhs u32_max) then Some rhs else None)) else (Ret (Z.modulo rhs (2 ^ 32)))) (fun (rhs : Z) => (Shift.U_shr dbg w self rhs)).
+
+Definition I_Shr_i16_shr (dbg : bool) (w : Z) (self : list Z) (rhs : Z) : outcome (list Z) :=
+  obind (if dbg then (Core.option_expect (if andb (Z.leb 0 rhs) (Z.leb rhs u32_max) then Some rhs else None)) else (Ret (Z.modulo rhs (2 ^ 32)))) (fun (rhs : Z) => (Shift.I_shr dbg w self rhs)).
+
+Definition U_Shr_i32_shr (dbg : bool) (w : Z) (self : list Z) (rhs : Z) : outcome (list Z) :=
+  obind (if dbg then (Core.option_expect (if andb (Z.leb 0 rhs) (Z.leb rhs u32_max) then Some rhs else None)) else (Ret (Z.modulo rhs (2 ^ 32)))) (fun (rhs : Z) => (Shift.U_shr dbg w self rhs)).
+
+Definition I_Shr_i32_shr (dbg : bool) (w : Z) (self : list Z) (rhs : Z) : outcome (list Z) :=
+  obind (if dbg then (Core.option_expect (if andb (Z.leb 0 rhs) (Z.leb rhs u32_max) then Some rhs else None)) else (Ret (Z.modulo rhs (2 ^ 32)))) (fun (rhs : Z) => (Shift.I_shr dbg w self rhs)).
+
+Definition U_Shr_isize_shr (dbg : bool) (w : Z) (self : list Z) (rhs : Z) : outcome (list Z) :=
+  obind (if dbg then (Core.option_expect (if andb (Z.leb 0 rhs) (Z.leb rhs u32_max) then Some rhs else None)) else (Ret (Z.modulo rhs (2 ^ 32)))) (fun (rhs : Z) => (Shift.U_shr dbg w self rhs)).
+
+Definition I_Shr_isize_shr (dbg : bool) (w : Z) (self : list Z) (rhs : Z) : outcome (list Z) :=
+  obind (if dbg then (Core.option_expect (if andb (Z.leb 0 rhs) (Z.leb rhs u32_max) then Some rhs else None)) else (Ret (Z.modulo rhs (2 ^ 32)))) (fun (rhs : Z) => (Shift.I_shr dbg w self rhs)).
+
+Definition U_Shr_i64_shr (dbg : bool) (w : Z) (self : list Z) (rhs : Z) : outcome (list Z) :=
+  obind (if dbg then (Core.option_expect (if andb (Z.leb 0 rhs) (Z.leb rhs u32_max) then Some rhs else None)) else (Ret (Z.modulo rhs (2 ^ 32)))) (fun (rhs : Z) => (Shift.U_shr dbg w self rhs)).
+
+Definition I_Shr_i64_shr (dbg : bool) (w : Z) (self : list Z) (rhs : Z) : outcome (list Z) :=
+  obind (if dbg then (Core.option_expect (if andb (Z.leb 0 rhs) (Z.leb rhs u32_max) then Some rhs else None)) else (Ret (Z.modulo rhs (2 ^ 32)))) (fun (rhs : Z) => (Shift.I_shr dbg w self rhs)).
+
+Definition U_Shr_i128_shr (dbg : bool) (w : Z) (self : list Z) (rhs : Z) : outcome (list Z) :=
+  obind (if dbg then (Core.option_expect (if andb (Z.leb 0 rhs) (Z.leb rhs u32_max) then Some rhs else None)) else (Ret (Z.modulo rhs (2 ^ 32)))) (fun (rhs : Z) => (Shift.U_shr dbg w self rhs)).
+
+Definition I_Shr_i128_shr (dbg : bool) (w : Z) (self : list Z) (rhs : Z) : outcome (list Z) :=
+  obind (if dbg then (Core.option_expect (if andb (Z.leb 0 rhs) (Z.leb rhs u32_max) then Some rhs else None)) else (Ret (Z.modulo rhs (2 ^ 32)))) (fun (rhs : Z) => (Shift.I_shr dbg w self rhs)).
+
+Definition U_Shr_usize_shr (dbg : bool) (w : Z) (self : list Z) (rhs : Z) : outcome (list Z) :=
+  obind (if dbg then (Core.option_expect (if andb (Z.leb 0 rhs) (Z.leb rhs u32_max) then Some rhs else None)) else (Ret (Z.modulo rhs (2 ^ 32)))) (fun (rhs : Z) => (Shift.U_shr dbg w self rhs)).
+
+Definition I_Shr_usize_shr (dbg : bool) (w : Z) (self : list Z) (rhs : Z) : outcome (list Z) :=
+  obind (if dbg then (Core.option_expect (if andb (Z.leb 0 rhs) (Z.leb rhs u32_max) then Some rhs else None)) else (Ret (Z.modulo rhs (2 ^ 32)))) (fun (rhs : Z) => (Shift.I_shr dbg w self rhs)).
+
+Definition U_Shr_u64_shr (dbg : bool) (w : Z) (self : list Z) (rhs : Z) : outcome (list Z) :=
+  obind (if dbg then (Core.option_expect (if andb (Z.leb 0 rhs) (Z.leb rhs u32_max) then Some rhs else None)) else (Ret (Z.modulo rhs (2 ^ 32)))) (fun (rhs : Z) => (Shift.U_shr dbg w self rhs)).
+
+Definition I_Shr_u64_shr (dbg : bool) (w : Z) (self : list Z) (rhs : Z) : outcome (list Z) :=
+  obind (if dbg then (Core.option_expect (if andb (Z.leb 0 rhs) (Z.leb rhs u32_max) then Some rhs else None)) else (Ret (Z.modulo rhs (2 ^ 32)))) (fun (rhs : Z) => (Shift.I_shr dbg w self rhs)).
+
+Definition U_Shr_u128_shr (dbg : bool) (w : Z) (self : list Z) (rhs : Z) : outcome (list Z) :=
+  obind (if dbg then (Core.option_expect (if andb (Z.leb 0 rhs) (Z.leb rhs u32_max) then Some rhs else None)) else (Ret (Z.modulo rhs (2 ^ 32)))) (fun (rhs : Z) => (Shift.U_shr dbg w self rhs)).
+
+Definition I_Shr_u128_shr (dbg : bool) (w : Z) (self : list Z) (rhs : Z) : outcome (list Z) :=
+  obind (if dbg then (Core.option_expect (if andb (Z.leb 0 rhs) (Z.leb rhs u32_max) then Some rhs else None)) else (Ret (Z.modulo rhs (2 ^ 32)))) (fun (rhs : Z) => (Shift.I_shr dbg w self rhs)).
 
 End Glue.
